@@ -120,6 +120,15 @@ func c13RoundTrip(pr *c13Pair, salt []byte, content, n int, dump func(payload, w
 	orig := append([]byte(nil), payload...)
 	ref := c13RefWire(pr.key, salt, payload)
 
+	// capture the real wire datagram first, so that the python corpus gets it whatever the Go
+	// reference says about it below
+	c13PinSalt(pr.obA, salt)
+	pr.innerA.Sent = nil
+	nw, werr := pr.connA.WriteTo(payload, pr.addrB)
+	if dump != nil && len(pr.innerA.Sent) == 1 {
+		dump(orig, pr.innerA.Sent[0].Data)
+	}
+
 	// (a) the obfuscator object directly
 	c13PinSalt(pr.standaloneOb, salt)
 	out := make([]byte, n+c13SaltLen)
@@ -148,11 +157,8 @@ func c13RoundTrip(pr *c13Pair, salt []byte, content, n int, dump func(payload, w
 	}
 
 	// (b) through the wrapped sockets
-	c13PinSalt(pr.obA, salt)
-	pr.innerA.Sent = nil
-	nw, err := pr.connA.WriteTo(payload, pr.addrB)
-	if err != nil {
-		return "WriteTo error: " + err.Error()
+	if werr != nil {
+		return "WriteTo error: " + werr.Error()
 	}
 	if nw != n {
 		return fmt.Sprintf("WriteTo reported %d bytes for a %d-byte packet", nw, n)
@@ -164,9 +170,6 @@ func c13RoundTrip(pr *c13Pair, salt []byte, content, n int, dump func(payload, w
 		return fmt.Sprintf("WriteTo put %d datagrams on the inner socket, expected 1", len(pr.innerA.Sent))
 	}
 	sent := pr.innerA.Sent[0]
-	if dump != nil {
-		dump(orig, sent.Data)
-	}
 	if len(sent.Data) != n+c13SaltLen {
 		return fmt.Sprintf("wire datagram is %d bytes for a %d-byte packet, expected %d", len(sent.Data), n, n+c13SaltLen)
 	}
